@@ -128,6 +128,42 @@ fn normalize_native(log: &[String], root_as_ctx: bool) -> Vec<String> {
     out
 }
 
+/// Collapses repeated field names inside one value list (first position, last value): what the
+/// insertion-ordered map `TracedValues` does to a value set that names a field twice (the
+/// weakening that corresponds to known finding K5).
+fn collapse_repeated(log: &[String]) -> Vec<String> {
+    log.iter()
+        .map(|l| {
+            let toks: Vec<&str> = l.split(' ').collect();
+            if !matches!(toks.get(1).copied(), Some("new") | Some("evt") | Some("rec")) {
+                return l.clone();
+            }
+            let Some(ci) = (2..toks.len()).find(|i| toks[*i].parse::<usize>().is_ok()) else { return l.clone() };
+            let n: usize = toks[ci].parse().unwrap();
+            if toks.len() < ci + 1 + 2 * n {
+                return l.clone();
+            }
+            let mut pairs: Vec<(&str, &str)> = vec![];
+            for j in 0..n {
+                let (name, val) = (toks[ci + 1 + 2 * j], toks[ci + 2 + 2 * j]);
+                if let Some(p) = pairs.iter_mut().find(|p| p.0 == name) {
+                    p.1 = val;
+                } else {
+                    pairs.push((name, val));
+                }
+            }
+            let mut out: Vec<String> = toks[..ci].iter().map(|t| (*t).to_owned()).collect();
+            out.push(pairs.len().to_string());
+            for (a, b) in pairs {
+                out.push(a.to_owned());
+                out.push(b.to_owned());
+            }
+            out.extend(toks[ci + 1 + 2 * n..].iter().map(|t| (*t).to_owned()));
+            out.join(" ")
+        })
+        .collect()
+}
+
 /// Erases everything about spans/events whose call site the host disables, renumbers host ids
 /// by first occurrence and masks parent links (C13's weakened comparison).
 fn erase_disabled(log: &[String], sites: &[Site], max_level: u8) -> Vec<String> {
@@ -362,7 +398,9 @@ impl Suite for Prog {
                 // drop the receiver's final batch? the program may end with spans alive: the drop
                 // of the receiver closes / exits them; natively nothing happens. Compare the prefix.
                 let t_cmp: Vec<String> = tlog.iter().take(weak.len()).cloned().collect();
-                if t_cmp != weak {
+                if t_cmp != weak && t_cmp == collapse_repeated(&weak) {
+                    out.fails.push("C01 a value set naming the same field more than once reaches the native host as separate visits but the tunnelled host as one (first position, last value) [repeated-field-name]".into());
+                } else if t_cmp != weak {
                     let k = t_cmp.iter().zip(&weak).position(|(a, b)| a != b).unwrap_or(t_cmp.len().min(weak.len()));
                     out.fails.push(format!("C01 tunnelled trace differs from the native one at host call #{k}: tunnelled `{}` vs native `{}`", t_cmp.get(k).map_or("<end>", String::as_str), weak.get(k).map_or("<end>", String::as_str)));
                 } else if full != weak {
@@ -393,7 +431,8 @@ impl Suite for Prog {
                     let ktok = match toks[1] { "new" => toks.get(3), "evt" => toks.get(2), _ => None };
                     ktok.and_then(|k| k.strip_prefix('k')).and_then(|k| k.parse::<usize>().ok()).map_or(false, |k| prog.sites[k].level > m)
                 });
-                let n_w = erase_disabled(&weak, &prog.sites, m);
+                // repeated field names inside one value set are C01's business (known finding K5)
+                let n_w = erase_disabled(&collapse_repeated(&weak), &prog.sites, m);
                 let t_w: Vec<String> = erase_disabled(&tlog, &prog.sites, m);
                 let t_w: Vec<String> = t_w.into_iter().take(n_w.len()).collect();
                 if t_w != n_w {
